@@ -489,6 +489,33 @@ def r7e(fb, rep):
     rep.floor(R, "State file-map accessors examined", m, 3)
 
 
+def r7f(fb, rep):
+    """what an identifier means does not depend on which modules the VM happens to have loaded: only `@module` (global) symbols
+    are resolved against the module store"""
+    R = "R7f"
+    rep.rule(R, "the compiler's environment resolves a name against loaded modules only when the symbol is global (sibling agreement of Env's lookup methods)")
+    n = 0
+    for bid, b in fb.bodies.items():
+        if b.crate.name != "gluon" or not bid.startswith("<gluon::query::Env<T> as ") or b.kind != "fn":
+            continue
+        look = [c for c in b.calls() if c.res.endswith("::get_binding_inner") or "::peek_" in c.res or c.res.endswith("::get_scoped_global")]
+        if not look:
+            continue
+        n += 1
+        guards = []
+        for bb, srcs, true_t, false_t in flow.bool_switches(b):
+            if flow.has_call(srcs, lambda x: x.endswith("::is_global")):
+                neg = ("op", "Not") in srcs
+                guards.append((bb, false_t if neg else true_t))
+        ok = bool(guards) and all(any(flow.only_via_edge(b, c.bb, g) for g in guards) for c in look)
+        if ok:
+            rep.ok(R, "%s: module lookup only for global symbols" % bid)
+        else:
+            rep.violation(R, "module-lookup-for-local-name|%s" % bid, "%s resolves a name against the loaded modules without first requiring `is_global()`: a plain identifier that "
+                          "happens to be the name of a module loaded earlier in the same VM type-checks there and is undefined in a fresh VM" % bid, b.where())
+    rep.floor(R, "Env lookup methods that consult the module store", n, 3)
+
+
 def _ref_bases(b, local, depth=6):
     """locals a reference local may point to (through reborrows), including itself"""
     out = {local}
@@ -536,3 +563,4 @@ def run(fb, rep, tier, cfg):
     r7c(fb, rep)
     r7d(fb, rep)
     r7e(fb, rep)
+    r7f(fb, rep)
